@@ -144,11 +144,24 @@ h3 = {"name": "h3_lookup", "src": "h3_lookup.c", "env": ["ctx", "hash_model", "l
 h3int = {"name": "h3_int", "src": "h3_int.c", "env": ["ctx"], "tus": ["types_base"], "unwind": 2, "timeout": 300, "mem_gb": 8, "object_bits": 12,
          "functions": ["KSI_Integer_new", "KSI_Integer_getUInt64", "KSI_Integer_equals", "KSI_Integer_compare", "KSI_Integer_free"], "bound": "all pairs of 64-bit values", "solver": "cadical"}
 
+def h2b_inst(f, c, tl=(2, 2), vl=(2, 2), label=None):
+    nact = f if f >= 0 else c
+    d = ["NFILE=%d" % f, "NCTX=%d" % c, "TLENS={%d,%d}" % tl, "VLENS={%d,%d}" % vl]
+    if nact >= 1 and all(tl[i] == vl[i] for i in range(nact)): d.append("W_TRUSTED=1")
+    if nact >= 1 and tl[0] != vl[0]: d.append("W_PREFIX=1")
+    if nact >= 1 and tl[0] == 0 and vl[0] == 0: d.append("W_NO_MISMATCH=1")
+    return {"label": label or "file%s_ctx%s" % (str(f).replace("-1", "none"), str(c).replace("-1", "none")), "defines": d}
+
+
+H2B = [h2b_inst(f, c) for f, c in [(-1, -1), (-1, 0), (-1, 1), (-1, 2), (0, 2), (1, -1), (1, 2), (2, 1), (2, -1)]] + [
+    h2b_inst(1, -1, (2, 3), (3, 3), "len_text2_value3"), h2b_inst(1, -1, (3, 2), (2, 2), "len_text3_value2"),
+    h2b_inst(1, -1, (0, 2), (1, 2), "len_text0_value1"), h2b_inst(-1, 1, (1, 2), (0, 2), "len_text1_value0"),
+    h2b_inst(1, -1, (3, 3), (3, 3), "len_text3_value3"), h2b_inst(1, -1, (0, 0), (0, 0), "len_both_empty"),
+    h2b_inst(2, -1, (2, 1), (2, 3), "len_second_text1_value3"), h2b_inst(-1, 2, (3, 3), (3, 1), "len_second_text3_value1")]
 h2b = {"name": "h2b_constraints", "src": "h2b_constraints.c", "env": ["ctx", "fmt_stub"], "tus": [], "unwind": 6, "harness_unwind": 260, "timeout": 300, "mem_gb": 8, "object_bits": 12,
        "functions": ["KSI_PKITruststore_verifyPKISignature", "pki_truststore_verifySignature", "KSI_PKITruststore_verifySignatureCertificate", "pki_truststore_verifyCertificateConstraints", "KSI_PKISignature_extractCertificate", "KSI_PKICertificate_free"],
-       "bound": "file-level constraint set absent / 0..2 entries x context-level set absent / 0..2 entries; every OpenSSL outcome, the subject attribute texts and the expected values (2 characters each) symbolic",
-       "instances": [{"label": "file%s_ctx%s" % (str(f).replace("-1", "none"), str(c).replace("-1", "none")), "defines": ["NFILE=%d" % f, "NCTX=%d" % c]}
-                     for f, c in [(-1, -1), (-1, 0), (-1, 1), (-1, 2), (0, 2), (1, -1), (1, 2), (2, 1), (2, -1)]]}
+       "bound": "file-level constraint set absent / 0..2 entries x context-level set absent / 0..2 entries; attribute text and configured value of length 0..3 each (equal, text shorter, text longer, empty); every OpenSSL outcome and every character symbolic; attribute texts that do not fit the 256-byte buffer are outside",
+       "instances": H2B}
 
 plan = {"property": "C18", "outside": "TBD", "assumptions": [], "manifest": {"claimed": True, "level_text": "TBD", "level_note": "TBD"},
         "harnesses": [h1, h2, h2b, h3, h3int]}
